@@ -1,5 +1,6 @@
-import FitProps.WriterOutcomeLemmas
+import FitProps.WriterIntegrityLemmas
 import FitModel.Integrity
+import FitModel.Generated.WireConsts
 import FitProps.C09
 /-!
 # C11 — Destination failures surface as errors; incomplete output is never a valid file
@@ -99,6 +100,64 @@ theorem C11_call_error_surfaces {σ : Type} (V : MsgValidator σ) (F : Faults) (
     exact not_clean_of_faulted hf (writeMessageV_clean V F o h s vs m (clean_of_not_faulted h1 h2) hok)
   · intro s vs h1 h2 hok hf
     exact not_clean_of_faulted hf (sequenceCompletedV_clean V F c o h s vs (clean_of_not_faulted h1 h2) hok)
+
+/-- OBLIGATION ON THE REGENERATED CONSTANTS: for the SDK's profile version (`profile.Version`, regenerated from the working
+tree) and the protocol versions the encoder puts into a default header (1.0, or 2.0 by option), the high byte of the
+placeholder header's CRC is not 0 — so no partially rewritten header carries a CRC field of 0, which would switch
+the decoder's header check off. -/
+theorem C11_consts :
+    HK 16 Fit.Gen.Wire.profileVersion 0 / 256 % 256 ≠ 0 ∧ HK 32 Fit.Gen.Wire.profileVersion 0 / 256 % 256 ≠ 0 ∧
+    Fit.Gen.Wire.profileVersion < 65536 := by
+  decide +kernel
+
+/-- INCOMPLETE OUTPUT IS NEVER A VALID FILE, batch. FIT values with default (zero) headers (`ZeroHdr`: 14-byte header, caller's
+data size 0, records below 16 MiB, placeholder CRC's high byte non-zero — `C11_consts`), any writer kind, any buffer
+size, a destination that is empty or holds an accepted stream, and ANY fault schedule `F` — in particular the
+schedule "operation k takes j bytes and fails", after which the encoder issues no further operation, so that the final
+content is exactly the crash state "the first k operations, and j bytes of the next write, took effect": if the
+integrity check accepts the destination content as a complete stream, then the content is `d₀` followed by the first
+`m` COMPLETE sequences, for some `m` — a boundary between completed sequences, never anything in between. -/
+theorem C11_prefix_never_valid (F : Faults) (o : Opts) (kind : Kind) (size : Nat) (d₀ : Dest) (n₀ : Nat) (fs : List FitIn)
+    (hend : d₀.pos = d₀.content.length) (hown : kind = .at → n₀ = d₀.content.length)
+    (hbase : d₀.content = [] ∨ Acc d₀.content) (hz : ∀ f ∈ fs, ZeroHdr o f)
+    (hacc : Acc (encodeChainW F o (Fit.C09.encOn o kind size d₀ n₀) fs).1.w.d.content) :
+    ∃ m, m ≤ fs.length ∧
+      (encodeChainW F o (Fit.C09.encOn o kind size d₀ n₀) fs).1.w.d.content = d₀.content ++ encodeChain o (fitsOf (fs.take m)) := by
+  obtain ⟨_, _, h3, _, _, _⟩ := chain_spec F o fs _ (Fit.C09.encOn_ready o kind size d₀ n₀ hend hown)
+  exact chainReach_acc o kind d₀.content fs _ hz hbase h3 hacc
+
+/-- INCOMPLETE OUTPUT IS NEVER A VALID FILE, stream: the same for sequences written message by message through the stream
+encoder — for the repaired code (`clearsHeader`), and for the code as it was pinned as long as only ONE sequence is
+written (the second sequence's stale header is finding KF-C11-1, `C11_stale_header_witness`). -/
+theorem C11_prefix_never_valid_stream (F : Faults) (c : StreamCfg) (o : Opts) (h : Fit.Wire.Hdr) (kind : Kind) (size : Nat)
+    (d₀ : Dest) (n₀ : Nat) (mss : List (List WMsg)) (hc : c.clearsHeader = true ∨ mss.length ≤ 1)
+    (hdir : kind.direct = true) (hend : d₀.pos = d₀.content.length) (hown : kind = .at → n₀ = d₀.content.length)
+    (hbase : d₀.content = [] ∨ Acc d₀.content) (hz : ∀ ms ∈ mss, ZeroHdr o ⟨h, 0, ms⟩)
+    (hacc : Acc (Stream.chain F c o h (Fit.C09.streamOn o kind size d₀ n₀ 0) mss).1.e.w.d.content) :
+    ∃ m, m ≤ mss.length ∧
+      (Stream.chain F c o h (Fit.C09.streamOn o kind size d₀ n₀ 0) mss).1.e.w.d.content =
+        d₀.content ++ encodeChain o ((mss.take m).map fun ms => (h, ms)) := by
+  have hne : ∀ ms ∈ mss, ms ≠ [] := fun ms hm => (hz ms hm).nonempty
+  obtain ⟨e1, _⟩ := Fit.C09.C09_stream_equals_batch F c o h kind size d₀ n₀ 0 mss hne hdir hend hown
+  rw [e1] at hacc ⊢
+  obtain ⟨m, hm, hc'⟩ := C11_prefix_never_valid F o kind size d₀ n₀ (streamFits c o h 0 mss) hend hown hbase
+    (streamFits_zero c o h mss 0 rfl hc hz) hacc
+  have hl : (streamFits c o h 0 mss).length = mss.length := by
+    have := congrArg List.length (fitsOf_streamFits c o h 0 mss)
+    simpa [fitsOf] using this
+  refine ⟨m, by omega, ?_⟩
+  rw [hc']
+  congr 2
+  have : fitsOf ((streamFits c o h 0 mss).take m) = (fitsOf (streamFits c o h 0 mss)).take m := by
+    simp [fitsOf, List.map_take]
+  rw [this, fitsOf_streamFits, List.map_take]
+
+/-- the hypotheses are met by a default header and ordinary messages (non-vacuity) -/
+example : ZeroHdr ⟨0, false, 1⟩ ⟨⟨14, 16, Fit.Gen.Wire.profileVersion⟩, 0, [⟨20, [⟨151, 2, 3, [0x16]⟩], []⟩]⟩ :=
+  { size := rfl, ds0 := rfl, pv := by decide, nonempty := by decide, small := by decide +kernel,
+    hk := by
+      dsimp only
+      exact C11_consts.1 }
 
 /-! ### finding KF-C11-1 (DESIGN §4 F13): the stream encoder's kept header -/
 
